@@ -205,7 +205,7 @@ class Gen:
                         sl = 50
                     tag = g + (",soft" if (allow_soft and r.random() < 0.3) else "")
                     fs.append(self.field(fname(), u(sl), {"group": tag}))
-                elif c < self.w["group"] + 0.12 and depth < 2:
+                elif c < self.w["group"] + self.w.get("nest", 0.12) and depth < 2:
                     fs.append(self.field(fname(), obj(depth + 1)))
                 else:
                     optv = r.choice(["true", "true", "1", "T", "false"]) if self.p("optional") else None
@@ -1536,7 +1536,8 @@ def generate(seed, w=None):
 
 def generate_valerr(seed, w=None):
     """a program some of whose functions declare a result of a value-typed error (pool.VErr, never nil): dig takes it for an
-    error on every call; outside the model, judged by the trace predicates only"""
+    error on every call.  Modelled (Ctx.forced) except in a DryRun container, where dig is handed the zero VErr
+    although nothing ran: those programs are outside the model and judged by the trace predicates only"""
     g = Gen(seed, w)
     p = g.program()
     r = random.Random(seed ^ 0xE44)
@@ -1565,7 +1566,8 @@ def generate_valerr(seed, w=None):
     p["ops"] = p["ops"] + tail
     p["fns"] = g.fns
     p["script"] = g.script
-    p["unmodelled"] = "value-typed error results"
+    if p["cfg"].get("dry"):
+        p["unmodelled"] = "value-typed error results in a DryRun container"
     return p
 
 
